@@ -11,6 +11,7 @@ import NemoVerif.Lemmas.Stream
 import NemoVerif.Lemmas.StreamAsIs
 import NemoVerif.Lemmas.StreamUsage
 import NemoVerif.Lemmas.StreamTopK
+import NemoVerif.Lemmas.StreamPipeCfg
 import NemoVerif.Generated.C18
 namespace NemoVerif.C18
 open NemoVerif.Stream
@@ -195,6 +196,40 @@ theorem pipe_chunk_invariant (cfg : Cfg) (hS : NonemptyStops cfg.stop) (text : S
     (hflat : cs.flatten = text) (hne : ∀ c ∈ cs, c ≠ []) :
     deliveredOf (pipeTarget (run cfg cs e).out) = spec cfg text e :=
   (pipe_consumer_view cfg cs e).trans (chunk_invariant cfg hS text cs e hflat hne).1
+
+/-- TWO-STAGE PIPE (phase 4).  The piped handler has its OWN configuration `cfg2` (prefix/suffix/stops): what ITS
+    consumer receives, and its `completion`, is `spec cfg2` of what the producer delivered, i.e. of `spec cfg text`
+    — for every chunking — provided the producer forwarded an end marker (otherwise the second handler's held-back
+    tail is never flushed: `push_chunk("")`/`push_chunk(None)` after a stop sequence was hit, or when the prefix never
+    came, forward nothing). -/
+theorem pipe_configured_chunk_invariant (cfg cfg2 : Cfg) (hS : NonemptyStops cfg.stop) (hS2 : NonemptyStops cfg2.stop)
+    (text : Str) (cs : List Str) (e : EndProto) (hflat : cs.flatten = text) (hne : ∀ c ∈ cs, c ≠ [])
+    (hend : ∃ x ∈ (run cfg cs e).out, isEnd x = true) :
+    delivered (pipeTargetCfg cfg2 (run cfg cs e).out) = spec cfg2 (spec cfg text e) .empty ∧
+      (pipeTargetCfg cfg2 (run cfg cs e).out).completion = spec cfg2 (spec cfg text e) .empty := by
+  subst hflat
+  exact pipe_cfg_delivered hS hS2 cs hne e hend
+
+/-- … and with `on_llm_end` in the end protocol (what LangChain does) the end marker is always forwarded -/
+theorem pipe_configured_chunk_invariant_llm_end (cfg cfg2 : Cfg) (hS : NonemptyStops cfg.stop) (hS2 : NonemptyStops cfg2.stop)
+    (text : Str) (cs : List Str) (e : EndProto) (hflat : cs.flatten = text) (hne : ∀ c ∈ cs, c ≠ [])
+    (he : e.hasLlmEnd = true) :
+    delivered (pipeTargetCfg cfg2 (run cfg cs e).out) = spec cfg2 (spec cfg text e) .empty ∧
+      (pipeTargetCfg cfg2 (run cfg cs e).out).completion = spec cfg2 (spec cfg text e) .empty :=
+  pipe_configured_chunk_invariant cfg cfg2 hS hS2 text cs e hflat hne (run_has_end hS cs hne e he)
+
+/-- non-vacuity: producer strips `P:` … `"` and stops at `"\n`; the piped handler strips `[` … `]` and stops at `;`;
+    chunk boundaries inside every pattern; and a witness that WITHOUT an end marker the second stage keeps its tail
+    (stop hit, then `push_chunk("")`: nothing is forwarded any more) -/
+example :
+    let cfg : Cfg := ⟨"P:".toList, "\"".toList, ["\"\n".toList]⟩
+    let cfg2 : Cfg := ⟨"[".toList, "]".toList, [";".toList]⟩
+    let cs := ["P".toList, ":[a".toList, "b]".toList, "\"".toList, "\nx".toList]
+    (∃ x ∈ (run cfg cs .llmEnd).out, isEnd x = true) ∧
+    delivered (pipeTargetCfg cfg2 (run cfg cs .llmEnd).out) = "ab".toList ∧
+    (¬ ∃ x ∈ (run cfg cs .empty).out, isEnd x = true) ∧
+    delivered (pipeTargetCfg cfg2 (run cfg cs .empty).out) = "a".toList := by
+  decide
 
 /-! ### The library's own use of the handler (`Models/StreamUsage.lean`, repaired variant)
 
